@@ -152,51 +152,33 @@ Proof. vm_compute. split; reflexivity. Qed.
 
 (* ---- the worker never re-arms a descriptor it does not own ---- *)
 
-(* a write-queue entry can only be missing for a registered peer if nobody prepared it; histories in
-   which every registration is preceded by its preparation (what Listener::dispatchPeer does) *)
-Definition towrite_covers (s : wstate) : Prop := forall fd, mem fd (w_peers s) = true -> mem fd (w_towrite s) = true.
-
 Lemma mem_drop_same fd l : mem fd (drop fd l) = false.
 Proof. apply has_drop_same. Qed.
 Lemma mem_drop_other fd g l : g <> fd -> mem g (drop fd l) = mem g l.
 Proof. apply has_drop_other. Qed.
 
-Lemma wstep_guarded_no_fault s e : towrite_covers s -> wev_ok s e = true -> w_faults (wstep true s e) = w_faults s.
+Lemma wstep_guarded_no_fault s e : wev_ok s e = true -> w_faults (wstep true s e) = w_faults s.
 Proof.
-  intros Hc Hok. destruct e as [fd|fd|fd eof|fd ai]; cbn [wstep].
+  intros Hok. destruct e as [fd|fd|fd eof|fd ai|fd]; unfold wstep; cbn [wstep_gen].
   - reflexivity.
   - destruct (mem fd (w_peers s)); reflexivity.
   - destruct (mem fd (w_peers s)); [destruct eof|]; reflexivity.
   - destruct ai; cbn [andb].
-    + destruct (mem fd (w_peers s)) eqn:Hp; cbn [negb]; [|reflexivity]. rewrite (Hc fd Hp). reflexivity.
-    + cbn [wev_ok] in Hok. rewrite (Hc fd Hok). cbn [w_faults]. rewrite Hok. reflexivity.
+    + destruct (mem fd (w_peers s)) eqn:Hp; cbn [negb]; [|reflexivity]. destruct (mem fd (w_towrite s)); [cbn [w_faults]|]; reflexivity.
+    + cbn [wev_ok] in Hok. rewrite Hok. destruct (mem fd (w_towrite s)); reflexivity.
+  - reflexivity.
 Qed.
 
-Lemma wstep_covers g s e : towrite_covers s -> wev_ok s e = true -> towrite_covers (wstep g s e).
-Proof.
-  intros Hc Hok fd0 H0. destruct e as [fd|fd|fd eof|fd ai]; cbn [wstep] in *.
-  - cbn [w_peers w_towrite] in *. destruct (mem fd (w_towrite s)) eqn:E; [apply Hc; exact H0|].
-    unfold mem. cbn [existsb]. destruct (Nat.eqb fd0 fd); [reflexivity|]. apply Hc. exact H0.
-  - destruct (mem fd (w_peers s)) eqn:E; [apply Hc; exact H0|]. cbn [w_peers w_towrite] in *.
-    unfold mem in H0. cbn [existsb] in H0. destruct (Nat.eqb_spec fd0 fd) as [->|Hn]; [exact Hok|]. apply Hc. exact H0.
-  - destruct (mem fd (w_peers s)) eqn:Hp; [|apply Hc; exact H0]. destruct eof; cbn [w_peers w_towrite] in *; [|apply Hc; exact H0].
-    destruct (Nat.eq_dec fd0 fd) as [->|Hn]; [rewrite mem_drop_same in H0; discriminate|].
-    rewrite mem_drop_other in * by exact Hn. apply Hc. exact H0.
-  - destruct (true && ai && negb (mem fd (w_peers s))) eqn:E1; destruct (g && ai && negb (mem fd (w_peers s)));
-      try (apply Hc; exact H0); destruct (mem fd (w_towrite s)); try destruct ai; cbn [w_peers w_towrite] in *; apply Hc; exact H0.
-Qed.
-
-(* every history the acceptor, the kernel and the peers can produce: the guarded dispatch never re-arms a descriptor the
-   worker does not own *)
-Lemma wrun_guarded_never_faults : forall h s, towrite_covers s ->
+(* every history the acceptor, the kernel, the peers and the handlers (flush) can produce - lone writable reports only for
+   descriptors the worker has registered -: the dispatch never re-arms a descriptor the worker does not own and never fails *)
+Lemma wrun_guarded_never_faults : forall h s,
   (forall pre e post, h = pre ++ e :: post -> wev_ok (fold_left (wstep true) pre s) e = true) ->
   w_faults (fold_left (wstep true) h s) = w_faults s.
 Proof.
-  induction h as [|e h IH]; intros s Hc Hok; [reflexivity|]. cbn [fold_left].
+  induction h as [|e h IH]; intros s Hok; [reflexivity|]. cbn [fold_left].
   assert (He : wev_ok s e = true) by (apply (Hok [] e h); reflexivity).
   rewrite IH.
   - apply wstep_guarded_no_fault; assumption.
-  - apply wstep_covers; assumption.
   - intros pre e' post E. apply (Hok (e :: pre) e' post). rewrite E. reflexivity.
 Qed.
 
@@ -204,6 +186,12 @@ Qed.
 Lemma unguarded_faults :
   w_faults (wrun false [WPrepare 7; WRegister 7; WIn 7 true; WPrepare 7; WOut 7 true]) = 1
   /\ w_faults (wrun true [WPrepare 7; WRegister 7; WIn 7 true; WPrepare 7; WOut 7 true]) = 0.
+Proof. vm_compute. split; reflexivity. Qed.
+
+(* the version that threw when nothing was queued faults when a handler drains the queue while the input is handled *)
+Lemma strict_faults_after_drain :
+  w_faults (fold_left (wstep_gen true true) [WPrepare 7; WRegister 7; WIn 7 false; WDrain 7; WOut 7 true] winit) = 1
+  /\ w_faults (wrun true [WPrepare 7; WRegister 7; WIn 7 false; WDrain 7; WOut 7 true]) = 0.
 Proof. vm_compute. split; reflexivity. Qed.
 
 (* ---- a connection only ever receives what was queued for it; nothing stays queued for a closed number ---- *)
